@@ -63,7 +63,7 @@ func nestingDepthOfText(in []byte) int {
 func goroutineBaseline() int { return runtime.NumGoroutine() }
 
 func waitGoroutines(base int) error {
-	deadline := time.Now().Add(5 * time.Second)
+	deadline := time.Now().Add(30 * time.Second)
 	for {
 		n := runtime.NumGoroutine()
 		if n <= base {
